@@ -30,34 +30,26 @@ Recipes ==
     [step |-> "exec", idx |-> 0], [step |-> "exec", idx |-> 1], [step |-> "exec", idx |-> 2] }
   \cup { [step |-> n, idx |-> i] : n \in {"mounts", "mounts_mkdir", "rlimits"}, i \in 0..2 }
 
-OnPath(o, n) == n \in ToSet(ChildPath(o))
-Applicable(o, f) ==
+\* P = the set of steps on the child's path of o (computed once per base configuration)
+Applicable(o, P, f) ==
   CASE f.step = "clone"     -> o.cgfd                      \* CgroupFd that is not a cgroup directory
     [] f.step = "idmap"     -> o.user                      \* overlapping id map
-    [] f.step = "keepcaps"  -> OnPath(o, "keepcaps") /\ ~o.user      \* launcher thread has NO_SETUID_FIXUP locked off
-    [] f.step = "dropA_secbits" -> OnPath(o, "dropA_secbits") /\ ~OnPath(o, "keepcaps") /\ ~o.user  \* NOROOT locked off
+    [] f.step = "keepcaps"  -> "keepcaps" \in P /\ ~o.user      \* launcher thread has NO_SETUID_FIXUP locked off
+    [] f.step = "dropA_secbits" -> "dropA_secbits" \in P /\ "keepcaps" \notin P /\ ~o.user  \* NOROOT locked off
     [] f.step = "setgroups" -> o.cred /\ o.user            \* no gid map given: setgroups denied
     [] f.step \in {"setgid", "setuid"} -> o.cred /\ o.user \* requested id not mapped
     [] f.step \in {"mounts", "mounts_mkdir", "pivot_tmpfs", "pivot_root"} -> o.pivot
-    [] f.step \in {"seccompA", "seccompB"} -> OnPath(o, f.step)       \* invalid BPF program
-    [] OTHER -> OnPath(o, f.step)
+    [] OTHER -> f.step \in P                               \* invalid BPF program, missing paths, limits, ...
 
-\* does Start itself return the error?  (early-return modes report only what fails before the
-\* child's sync word; without a callback they report nothing but a failed clone)
-PosOf(n) == CHOOSE i \in 1..Len(StepOrder) : StepOrder[i] = (IF n = "mounts_mkdir" THEN "mounts" ELSE n)
-SyncWriteOf(o) == IF PS(o) THEN "syncA_write" ELSE "syncB_write"
-Reported(o, f) ==
-  \/ f.step = "clone"
-  \/ ~Early(o)
-  \/ o.sync /\ f.step = "idmap"
-  \/ o.sync /\ f.step \notin {"idmap"} /\ PosOf(f.step) < PosOf(SyncWriteOf(o))
-
-C07Fail == { [s |-> SiteOf(b), r |-> RowOf(b), opt |-> MkOpt(SiteOf(b), RowOf(b)), fail |-> f.step, idx |-> f.idx, cb |-> "ok",
-              hang |-> HangCombo(MkOpt(SiteOf(b), RowOf(b)))]
-             : b \in C07Bases, f \in Recipes } 
-C07Cases == { c \in C07Fail : Applicable(c.opt, [step |-> c.fail, idx |-> c.idx]) /\ ~c.hang }
-  \cup { [s |-> SiteOf(b), r |-> RowOf(b), opt |-> MkOpt(SiteOf(b), RowOf(b)), fail |-> "none", idx |-> 0, cb |-> x, hang |-> FALSE]
-         : b \in { bb \in C07Bases : MkOpt(SiteOf(bb), RowOf(bb)).sync /\ ~HangCombo(MkOpt(SiteOf(bb), RowOf(bb))) }, x \in {"ok", "err"} }
+CasesOf(b) ==
+  LET o == MkOpt(SiteOf(b), RowOf(b))
+      P == ToSet(ChildPath(o))
+  IN IF HangCombo(o) THEN {}
+     ELSE { [s |-> SiteOf(b), r |-> RowOf(b), opt |-> o, fail |-> f.step, idx |-> f.idx, cb |-> "ok", hang |-> FALSE]
+            : f \in { ff \in Recipes : Applicable(o, P, ff) } }
+          \cup (IF o.sync THEN { [s |-> SiteOf(b), r |-> RowOf(b), opt |-> o, fail |-> "none", idx |-> 0, cb |-> x, hang |-> FALSE] : x \in {"ok", "err"} }
+                ELSE {})
+C07Cases == UNION { CasesOf(b) : b \in C07Bases }
 
 ASSUME ndJsonSerialize("c04cases.ndjson", SetToSeq(C04Cases))
 ASSUME ndJsonSerialize("c07cases.ndjson", SetToSeq(C07Cases))
